@@ -73,14 +73,27 @@ fn random(a: &Args) {
     let (mut nsys, mut nev, mut ndisp, mut max_held, mut releases, mut stalls, mut npan) = (0, 0, 0, 0, 0, 0, 0);
     let mut samples = Vec::new();
     let mut prev: Option<(shredh::record::Recorded, shred::World)> = None;
-    for k in 0..count {
+    // --boundary: the programs of prog::gen_boundary after the random ones
+    let nb = if a.flag("boundary") { (0..).take_while(|i| shredh::prog::gen_boundary(*i, &mut StdRng::seed_from_u64(0)).is_some()).count() } else { 0 };
+    for k in 0..count + nb {
         shredh::unwind::set(rng.gen_bool(a.num("punwind", 0.08)));
         shredh::record::set_early_pool(rng.gen_bool(0.3));
         shredh::build::set_noise(if rng.gen_bool(0.2) { 0.06 } else { 0.0 });
         let mut cfg = base.clone();
         cfg.n_res = rng.gen_range(2..=base.n_res.max(2));
         // now and then a funnel program: groups filled to the capacity limit
-        let prog = if rng.gen_bool(a.num("pfunnel", 0.12)) { shredh::prog::gen_funnel(&mut rng) } else { gen_prog(&mut rng, &cfg, 0, "") };
+        let special = rng.gen_range(0..100);
+        let prog = if k >= count {
+            shredh::prog::gen_boundary(k - count, &mut rng).unwrap()
+        } else if special < 3 {
+            shredh::prog::gen_many_res(&mut rng)
+        } else if special < 5 {
+            shredh::prog::gen_wide_stage(&mut rng)
+        } else if rng.gen_bool(a.num("pfunnel", 0.12)) {
+            shredh::prog::gen_funnel(&mut rng)
+        } else {
+            gen_prog(&mut rng, &cfg, 0, "")
+        };
         let mut res = Vec::new();
         prog.resources(&mut res);
         let variant = if rng.gen_bool(0.5) { Variant::identity(&res) } else { Variant::random(&res, &mut rng) };
@@ -181,7 +194,7 @@ fn random(a: &Args) {
     w.flush().unwrap();
     println!(
         "{}",
-        json!({"programs":count,"systems":nsys,"events":nev,"dispatches":ndisp,"max_held":max_held,
+        json!({"programs":count + nb,"systems":nsys,"events":nev,"dispatches":ndisp,"max_held":max_held,
                "releases":releases,"stalls":stalls,"panicking_dispatches":npan,"samples":samples})
     );
 }
